@@ -1,7 +1,7 @@
 (* C02: parse_render theorems for Mon DD, YYYY / Month DD, YYYY forms. *)
 From Coq Require Import ZArith List Bool Lia ZifyBool.
 From V Require Import base.Cal gen.ParseTables parse.Lex parse.Prim parse.Ymd parse.Parse parse.Build
-                      parse.ParseSpec parse.LexSeg parse.TokFacts parse.YearThm parse.RenderTac parse.RenderTac3 parse.RenderIso parse.WordFacts parse.LexSeg2 parse.RenderCommaDefs parse.Render12Defs.
+                      parse.ParseSpec parse.LexSeg parse.TokFacts parse.YearThm parse.RenderTac parse.RenderTac3 parse.RenderIso parse.WordFacts parse.LexSeg2 parse.RenderCommaDefs parse.Render12Defs parse.RenderTac4.
 Import ListNotations.
 Open Scope Z_scope.
 Ltac Zify.zify_post_hook ::= Z.to_euclidean_division_equations.
@@ -84,10 +84,10 @@ Proof.
      by (cbn [app map wf_segs2 hd_error ok_next2 ok_next wf_seg2];
          rewrite ?(mon3_wf _ Hm12); cbn [wf_seg];
          rewrite ?digits_n_all_digit, ?digits_n_length, ?nonempty_digits; vm_compute; reflexivity));
-  cbn [app map flat_map seg2_toks seg_tok];
+  cbn [app map flat_map seg2_toks seg_tok length];
   destruct Hyc as [Hyc | Hyc];
-  repeat (progress (unfold adjust_ampm, dec_gt, dec_ge, dec_lt, dec_le, frac_nonzero; cbn [fst snd existsb]; sym2;
-                    wordrw Hm12; rewrite ?convertyear_ge100 by lia; zeq));
+  lrun ltac:(unfold adjust_ampm, dec_gt, dec_ge, dec_lt, dec_le, frac_nonzero; cbn [fst snd existsb];
+             wordrw Hm12; rewrite ?convertyear_ge100 by lia; zeq);
   try match goal with |- (if ?b then _ else _) = _ => destruct b end;
   zeq; first [reflexivity | (repeat f_equal; lia)].
 Qed.
